@@ -23,13 +23,15 @@ def jobs_for(tier: str) -> list[dict]:
     for physical in (1, 2, 3):
         arity = 3 if physical == 1 else 4
         flat_lt = 1 if physical == 1 else 2
-        seqs = C.kind_sequences(arity, C.RDF11_S, C.RDF11_P, C.RDF11_O, C.RDF11_G) + C.repeat_masks(arity) + [s for s in C.sharing_sequences(arity) if not s[0].startswith("deep")]
+        seqs = C.kind_sequences(arity, C.RDF11_S, C.RDF11_P, C.RDF11_O, C.RDF11_G) + C.repeat_masks(arity) + [s for s in C.sharing_sequences(arity) if P.rdf11(s[1])]
         if physical == 3:
             # every graph in one consecutive run, default graph non-empty: both writers see the same grouping
             g1, g2 = P.t_iri("G1"), P.t_bnode("G2")
             run = [tuple(C.base(f"r{i}", 3) + [g]) for i, g in enumerate((P.DEFAULT, P.DEFAULT, g1, g1, g2))]
             seqs.append(("graphs default,default,g1,g1,g2 (one run each)", run))
         configs = [dict(delimited=True, frame_size=250, logical=flat_lt, preset=(8, 8, 8)), dict(delimited=True, frame_size=1, logical=flat_lt, preset=(8, 8, 8)), dict(delimited=False, frame_size=250, logical=flat_lt, preset=(8, 0, 0))]
+        configs.append(dict(delimited=True, frame_size=250, logical=None, preset=(8, 8, 8)))
+        configs.append(dict(delimited=True, frame_size=250, logical=3 if physical == 1 else 4, preset=(8, 8, 8)))
         if tier == "thorough":
             configs.append(dict(delimited=True, frame_size=250, logical=None, preset=(8, 3 if physical == 1 else 4, 1)))
         for name, stmts in seqs:
